@@ -8,6 +8,8 @@ scheduler.
 """
 from __future__ import annotations
 
+import bisect
+
 from fractions import Fraction
 
 from lxml import etree
@@ -96,10 +98,14 @@ def generate(seed: int, tier: str, index: int) -> dict:
             script.append({"op": "sleep", "us": rng.randrange(0, 15_000_000)})
             script.append({"op": "restart"})
         actors.append({"id": "chaos", "kind": "player", "prng": 0, "script": script})
+    world = {"streams": ["bbb", "tears"]}
+    if rng.random() < 0.3:
+        # the stream carries stored option defaults: URLs omit values equal to them, every endpoint must apply them
+        world["defaults"] = {"bbb": rng.choice([{"depth": "40", "mup": "4"}, {"depth": "24"}])}
     return {
         "property": ID, "seed": seed, "index": index, "tier": tier, "hashseed": index % base.HASHSEEDS,
         "t0_us": t0, "sched_seed": rng.getrandbits(32),
-        "world": {"streams": ["bbb", "tears"]},
+        "world": world,
         "actors": actors,
     }
 
@@ -170,6 +176,21 @@ class Oracle:
                         sim.violate("common-segment-duration", subj,
                                     f"{key}: t={t} d={d1[t]} at T1 but d={d} at T2; {doc.url}")
                         break
+            # both lists lie on one grid: an entry of T2 that overlaps an entry of T1 is that very entry
+            starts1 = [t for t, _ in e1]
+            for t, d in e2:
+                k = bisect.bisect_right(starts1, t) - 1
+                for j in (k, k + 1):
+                    if 0 <= j < len(e1):
+                        t1, dd1 = e1[j]
+                        if t1 < t + d and t < t1 + dd1 and (t1, dd1) != (t, d) and t not in d1:
+                            sim.violate("segment-grid-shift", subj,
+                                        f"{key}: <S t={t} d={d}> at T2 overlaps <S t={t1} d={dd1}> of T1 without "
+                                        f"being the same segment; {doc.url}")
+                            break
+                else:
+                    continue
+                break
             sim.check("common-segments", common)
             if common:
                 sim.world.probe("c09.overlap")
@@ -274,7 +295,8 @@ def _subject(url: str, doc: Doc | None = None) -> str:
 
 
 def execute(spec: dict) -> dict:
-    template = {"streams": [worlds.std_stream(s) for s in spec["world"]["streams"]]}
+    from . import media_common as mc
+    template, _ = mc.world_template(spec["world"])
     simclock.CLOCK.us = spec["t0_us"]
     world, info = worlds.instantiate("run", template, secrets_seed=base.sub_seed(spec["seed"], "secrets"),
                                       share_blobs=True)
